@@ -176,6 +176,8 @@ LINSOLVE = {
     'linsolve-sparse-chol': ('sparse', 'spchol', {}),                # banded sparse, same pattern, PD <-> indefinite
     'linsolve-sparse-diag': ('sparse', 'diag', {}),
     'linsolve-cg': ('sparse', 'spchol', dict(solver='cg', regimes=['flipped'])),            # CG with initial guess, through LDAWrapper
+    'linsolve-cg-ilu': ('sparse', 'spchol', dict(solver='cg-ilu', regimes=['flipped'])),
+    'linsolve-cg-sor': ('sparse', 'spchol', dict(solver='cg-sor', regimes=['flipped'])),
     # CG called directly (no LDAWrapper): one right-hand side, and no seed that makes the adjoint right-hand side zero
     # (CG divides by |b|: NaN for b = 0 in the fresh network as well -- not a matter of call history)
     'linsolve-cg-jacobi-nolda': ('sparse', 'spchol', dict(solver='cg-jacobi', lda=False, regimes=['flipped'], rhs1=True,
@@ -226,6 +228,10 @@ def build_lib(pym, fm, recipe, rs):
         elif opt.get('solver') == 'cg':
             kw['solver'] = pym.solvers.CG(tol=1e-12)
             tol = 1e-8
+        elif opt.get('solver') in ('cg-ilu', 'cg-sor'):
+            pre = pym.solvers.ILU() if opt['solver'] == 'cg-ilu' else pym.solvers.SOR(w=1.2)
+            kw['solver'] = pym.solvers.CG(preconditioner=pre, tol=1e-12)
+            tol = 1e-8
         elif opt.get('solver') == 'cg-jacobi':
             kw['solver'] = pym.solvers.CG(preconditioner=pym.solvers.DampedJacobi(w=0.9), tol=1e-12)
             tol = 1e-8
@@ -239,6 +245,20 @@ def build_lib(pym, fm, recipe, rs):
         avoid = tuple(opt.get('avoid', ()))
         seedable = ['g', 'u']
         net = pym.Network(mA, mS, mG)
+    elif recipe == 'linsolve-cg-mg':
+        # CG preconditioned with geometric multigrid (interpolation built once, coarse solver chosen once), initial guess
+        dom = pym.DomainDefinition(4, 4)
+        x, f = S('x'), S('f')
+        bc = (dom.nodes[0, :] * 2 + np.arange(2)[None]).flatten()
+        mK = pym.AssembleStiffness(x, S('K'), dom, bc=bc)
+        mS = pym.LinSolve([mK.sig_out[0], f], S('u'), solver=pym.solvers.CG(preconditioner=pym.solvers.GeometricMultigrid(dom), tol=1e-12))
+        mC = pym.EinSum([mS.sig_out[0], f], S('c'), expression='i,i->')
+        sigs = dict(x=x, f=f, K=mK.sig_out[0], u=mS.sig_out[0], c=mC.sig_out[0])
+        inputs = dict(x=_design(dom.nel), f=lambda g: g.standard_normal(2 * dom.nnodes))
+        alt = dict(x=[('contrast', lambda g: np.where(g.random(dom.nel) < 0.5, 1e-1, 1.0) * (0.5 + g.random(dom.nel)))])
+        seedable = ['c', 'u']
+        net = pym.Network(mK, mS, mC)
+        tol = 1e-8
     elif recipe in ('stiffness-linsolve', 'assemble-general', 'assemble-poisson'):
         dom = pym.DomainDefinition(2, 2)
         x, f = S('x'), S('f')
@@ -282,8 +302,8 @@ def build_lib(pym, fm, recipe, rs):
         alt = dict(x=_field_alts(dom.nel))
         seedable = ['g', 'y', 'z']
         net = pym.Network(m1, m2, m3)
-    elif recipe in ('soe', 'soe-general-dense', 'soe-dense-chol', 'static-condensation', 'static-condensation-dense',
-                    'static-condensation-chol'):
+    elif recipe in ('soe', 'soe-general-dense', 'soe-dense-chol', 'soe-multirhs', 'static-condensation',
+                    'static-condensation-dense', 'static-condensation-chol'):
         n = 6
         cls = 'general' if recipe == 'soe-general-dense' else 'chol' if recipe.endswith('-chol') else 'spd'
         A0, As, base, alts = family(rs, n, cls)
@@ -296,7 +316,8 @@ def build_lib(pym, fm, recipe, rs):
             mG = fm['SqSum'](mS.sig_out[0], S('g'))
             mH = fm['SqSum'](mS.sig_out[1], S('h'))
             sigs = dict(x=x, bf=bf, xp=xp, A=mA.sig_out[0], xx=mS.sig_out[0], bb=mS.sig_out[1], g=mG.sig_out[0], h=mH.sig_out[0])
-            inputs = dict(x=base, bf=lambda g: g.standard_normal(4), xp=lambda g: g.standard_normal(2))
+            nr = (2,) if recipe == 'soe-multirhs' else ()
+            inputs = dict(x=base, bf=lambda g: g.standard_normal((4,) + nr), xp=lambda g: g.standard_normal((2,) + nr))
             seedable = ['g', 'h', 'xx', 'bb']
             net = pym.Network(mA, mS, mG, mH)
         else:
@@ -386,8 +407,8 @@ def build_lib(pym, fm, recipe, rs):
 
 
 RECIPES = sorted(LINSOLVE) + [
-    'stiffness-linsolve', 'assemble-general', 'assemble-poisson', 'filterconv', 'filterconv-edge', 'densityfilter',
-    'overhang', 'overhang-3d', 'soe', 'soe-general-dense', 'soe-dense-chol', 'static-condensation',
+    'linsolve-cg-mg', 'stiffness-linsolve', 'assemble-general', 'assemble-poisson', 'filterconv', 'filterconv-edge', 'densityfilter',
+    'overhang', 'overhang-3d', 'soe', 'soe-general-dense', 'soe-dense-chol', 'soe-multirhs', 'static-condensation',
     'static-condensation-dense', 'static-condensation-chol', 'eigensolve', 'eigensolve-gen', 'eigensolve-flag',
     'eigensolve-sparse', 'eigensolve-sparse-shift', 'eigensolve-sparse-gen', 'eigensolve-sparse-fe',
     'scaling-constraint', 'pnorm-undamped']
@@ -515,9 +536,16 @@ def observe_all(net):
     return {k: (canon(s.state), canon(s.sensitivity)) for k, s in net['sigs'].items()}
 
 
-def fresh_cycle(pym, fm, recipe, data_seed, cur, seeds):
-    """a freshly constructed identical network evaluated once on the inputs `cur` with the seeds `seeds`"""
-    fr = build_lib(pym, fm, recipe, np.random.default_rng(data_seed))
+def fresh_cycle(pym, fm, recipe, data_seed, cur, seeds, pristine=None):
+    """a freshly constructed identical network evaluated once on the inputs `cur` with the seeds `seeds`.
+    pristine: a network built by build_lib that has never been evaluated; a deep copy of it is used instead of a
+    new construction (pymoto inspects the call stack in every Signal/Module constructor: 8 ms each)"""
+    if pristine is not None:
+        import copy
+        fr = copy.deepcopy(dict(sigs=pristine['sigs'], net=pristine['net']))
+        fr['inputs'] = pristine['inputs']
+    else:
+        fr = build_lib(pym, fm, recipe, np.random.default_rng(data_seed))
     for k in sorted(fr['inputs']):
         fr['sigs'][k].state = np.array(cur[k], copy=True)
     fr['net'].response()
@@ -560,6 +588,8 @@ def run_stress(pym, fm, recipe, seed, focus, regimes, stats=None):
     tol = net['tol']
     failed, log, cur, skipped = [], [], {}, []
     N = net['net']
+    # never evaluated: cloned for the comparisons; the last comparison of the history constructs a new network
+    pristine = build_lib(pym, fm, recipe, np.random.default_rng(data_seed))
 
     def design(regime):
         for k in sorted(net['inputs']):
@@ -571,7 +601,7 @@ def run_stress(pym, fm, recipe, seed, focus, regimes, stats=None):
         N.response()
         log.append(f'design(regime {regime}); response')
 
-    def one_pass(spec, check=True, reset=True):
+    def one_pass(spec, check=True, reset=True, construct=False):
         if reset:
             N.reset()
             for k, s in net['sigs'].items():
@@ -584,7 +614,7 @@ def run_stress(pym, fm, recipe, seed, focus, regimes, stats=None):
         log.append(('reset; ' if reset else '') + f'seed {spec}; sensitivity')
         try:
             N.sensitivity()
-            fresh = fresh_cycle(pym, fm, recipe, data_seed, cur, seeds) if check else None
+            fresh = fresh_cycle(pym, fm, recipe, data_seed, cur, seeds, None if construct else pristine) if check else None
         except Exception as e:
             if not is_k02(recipe, e):
                 raise
@@ -623,7 +653,7 @@ def run_stress(pym, fm, recipe, seed, focus, regimes, stats=None):
     one_pass(('pattern', 'partial'))
     one_pass(('pattern', 'zero'))
     one_pass(('output', p[0], 'single'))
-    one_pass(('only', p))
+    one_pass(('only', p), construct=True)
     N.reset()
     for k, s in net['sigs'].items():
         if not close(canon(s.sensitivity), None):
@@ -844,6 +874,10 @@ def eig_bookkeeping(pym, g, ops, generalized, nmodes=3, n=10):
             mE.sensitivity()
             cells = []
             solvers = getattr(mE, 'solvers', None)
+            if solvers is None:     # the attribute may carry another name: any list of nmodes entries, each None or a solver
+                for v in vars(mE).values():
+                    if isinstance(v, list) and len(v) == nmodes and all(e is None or hasattr(e, 'solve') for e in v):
+                        solvers = v
             for i in range(nmodes):
                 s = None if solvers is None else solvers[i]
                 if s is None:
